@@ -117,6 +117,7 @@ type c15Cfg struct {
 	Init        int64 // initial wrapped balance of user 1 and 2 (and matching supply counter)
 	ERC         bool  // register one ERC-20 token (currency TTC) in the chain driver options
 	Supply20    bool  // TotalSupplyAddr is a 20-character string (a well-formed address for SEND's Validate)
+	TTCInit     int64 // initial token balance of user 2 (used by the C18 chain, see c18eth.go)
 }
 
 // ---------- the world of one run ----------
@@ -228,6 +229,10 @@ func c15NewWorld(cfg c15Cfg) *c15World {
 		for i, k := range w.wkeys {
 			st.Witness = append(st.Witness, consensus.Stake{ValidatorAddress: k.Addr, StakeAddress: k.Addr, Pubkey: k.Pub, ECDSAPubKey: k.Pub,
 				Name: fmt.Sprintf("w%d", i), Amount: *balance.NewAmount(1)})
+		}
+		if cfg.ERC && cfg.TTCInit > 0 {
+			st.Balances = append(st.Balances, consensus.BalanceState{Address: w.users[1].Addr, Currency: "TTC", Amount: *balance.NewAmount(cfg.TTCInit)},
+				consensus.BalanceState{Address: keys.Address(w.supply), Currency: "TTC", Amount: *balance.NewAmount(cfg.TTCInit)})
 		}
 		if cfg.Init > 0 {
 			a := *balance.NewAmount(cfg.Init)
